@@ -625,3 +625,72 @@ def alias_names(repo, res):
         nt = sl.text(vals[1])
         if not re.search(r"object_names\.get\(id\([^)]*" + obj_pat + r"[^)]*\),\s*" + idx + r"\)", nt):
             res.fail(key, f"alias name comes from `{nt[:90]}`, expected object_names.get(id(<{obj_pat}>), {idx})", rep.line(stores[0]))
+
+
+@rule(
+    "CLI-OUTSTEM",
+    ["C20"],
+    "the part of main() that derives namespaces and output file stems from the parsed arguments is interpreted for every "
+    "combination of -n / -o given or not (one and two UFL files): without -o the pair is written under the sanitised stem of "
+    "each UFL file whatever -n says; without -n the namespace is that stem; explicit values are used as given",
+    min_instances=6,
+)
+def cli_outstem(repo, res):
+    import re as _re
+    import string as _string
+
+    from ..absint import Interp, Node, Raised, _PyCall
+    from ..lnodes_model import load_classes
+
+    m = repo.mod("ffcx.main")
+    f = m.func("main")
+    res.functions.add(f.key)
+    stop = None
+    for i, st in enumerate(f.node.body):
+        if isinstance(st, ast.Assign) and isinstance(st.targets[0], ast.Name) and st.targets[0].id == "priority_options":
+            stop = i
+    if stop is None:
+        raise AnalysisError("main(): priority_options assignment not found")
+    stmts = f.node.body[:stop]
+    files2 = ["dir/poisson.py", "other/mass-matrix v2.py"]
+    cases = [(fl, ns, of) for fl in (files2[:1], files2) for ns in (None, "ns") for of in (None, "out")]
+    for fl, ns, of in cases:
+        key = f"{f.key}:stems:files={len(fl)},-n={'given' if ns else 'absent'},-o={'given' if of else 'absent'}"
+        res.ob(key)
+        nsl = None if ns is None else [f"{ns}{k}" for k in range(len(fl))]
+        ofl = None if of is None else [f"{of}{k}" for k in range(len(fl))]
+        xargs = Node("Namespace", input=None, ufl_file=list(fl), namespace=nsl, outfile=ofl, profile=False, visualise=False, dir=".")
+        it = Interp(repo, load_classes(repo), primary="ffcx.main")
+        it.overrides["logging.captureWarnings"] = _PyCall(lambda *a, **k: None)
+        it.overrides["parser.parse_args"] = _PyCall(lambda a=None: xargs)
+        it.overrides["pathlib.Path"] = _PyCall(lambda p_: Node("Path", stem=str(p_).rsplit("/", 1)[-1].rsplit(".", 1)[0]))
+        it.overrides["re.subn"] = _PyCall(lambda pat, rep, s_: _re.subn(pat, rep, s_))
+        it.overrides["string.ascii_letters"] = _string.ascii_letters
+        it.overrides["string.digits"] = _string.digits
+        env = {"args": None}
+        it.ctx.append(m)
+        try:
+            try:
+                it.block(stmts, env)
+            except Raised as e:
+                res.fail(key, f"main() raises ({e.what}) for files={fl}, -n={nsl}, -o={ofl}", m.line(f.node))
+                continue
+        finally:
+            it.ctx.pop()
+        stems = [_re.subn("!+", "_", _re.subn("[^A-Za-z0-9_]", "!", x.rsplit("/", 1)[-1].rsplit(".", 1)[0])[0])[0] for x in fl]
+        want_ns = nsl if nsl is not None else stems
+        want_of = ofl if ofl is not None else stems
+        got_ns, got_of, got_fn = env.get("namespaces"), env.get("outfiles"), env.get("filenames")
+        if got_fn != list(fl):
+            res.fail(key, f"input files are {got_fn}, expected {fl}", m.line(f.node))
+        if got_ns != want_ns:
+            res.fail(key, f"for files={fl}, -n={nsl}, -o={ofl} the namespaces are {got_ns}, expected {want_ns}", m.line(f.node))
+        if got_of != want_of:
+            res.fail(key, f"for files={fl}, -n={nsl}, -o={ofl} the output stems are {got_of}, expected {want_of}: without -o the pair must be written as "
+                     "<stem of the UFL file>.h/.c, otherwise the documented files are missing (or stale ones from an earlier run survive)", m.line(f.node))
+    # the loop writes each file's code under its own stem and namespace
+    key = f"{f.key}:zip-files-namespaces-outfiles"
+    res.ob(key)
+    src = ast.unparse(f.node)
+    if not re.search(r"for (\w+), (\w+), (\w+) in zip\(filenames, namespaces, outfiles\):", src) or not re.search(r"write_code\(code, (\w+), suffixes, xargs\.dir\)", src):
+        res.fail(key, "files, namespaces and output stems are not consumed together, one triple per UFL file", m.line(f.node))
